@@ -9,7 +9,10 @@
 (*                out, ok: Seq(key)]),   one per gpg invocation / HTTP GET  *)
 (*   result "ok"|"RefreshError"|"internal:..",                             *)
 (*   ring: key -> status, trust: Seq(key)   (read back with plain gpg),    *)
-(*   accept: key -> BOOLEAN  (verify_file of a message signed by the key)] *)
+(*   accept: key -> BOOLEAN  (verify_file of a message signed by the key), *)
+(*   cli: [ran, exit, end, left]  the same scenario through `gemato verify *)
+(*        -K keyfile` on a tree signed by A; left = entries remaining in   *)
+(*        the temporary directory afterwards]                              *)
 (*                                                                         *)
 (* Step 0 judges what the record alone decides (C05: no key outside the    *)
 (* key file is trusted or accepted) and prints K.  Then the events are     *)
@@ -54,6 +57,12 @@ RecClauses ==
           THEN {"X06.FileKeyDeletedByRefresh"} ELSE {})
     \cup (IF R.result = "ok" /\ \E k \in Keys : R.ring0[k] = "absent" /\ R.ring[k] # "absent"
           THEN {"X07.ForeignKeyLeftInKeyring"} ELSE {})
+    \* the command line on a consistent tree signed by A: status 0 only if the refresh succeeded and A's
+    \* signature is acceptable afterwards; the isolated home is removed whatever happens
+    \cup (IF R.cli.ran /\ R.cli.exit = 0 /\ ~(R.result = "ok" /\ R.accept["A"]) THEN {"C05.CliAcceptsDespiteRefresh"} ELSE {})
+    \cup (IF R.cli.ran /\ R.cli.exit # 0 /\ R.result = "ok" /\ R.accept["A"] THEN {"X10.CliRejectsAfterGoodRefresh"} ELSE {})
+    \cup (IF R.cli.ran /\ R.cli.end \notin {"ok", "fail"} THEN {"X09.RefreshInternalError"} ELSE {})
+    \cup (IF R.cli.ran /\ R.cli.left # 0 THEN {"X11.IsolatedHomeLeftBehind"} ELSE {})
 
 Judge ==
     /\ l = 0 /\ l' = 1
